@@ -160,6 +160,7 @@ pub fn par_plan(prop: &str, tier: &str) -> ParPlan {
       ("C02", _) | ("C05", _) => ParPlan { pools: vec![1, 2, 3, 4, 8, 16], reps: 6, perturb: true },
       ("C10", _) => ParPlan { pools: vec![1, 2, 4, 8], reps: 2, perturb: true },
       ("C06", _) => ParPlan { pools: vec![2, 4, 16], reps: 1, perturb: false },
+      ("C04", _) => ParPlan { pools: vec![1, 4], reps: 1, perturb: false },
       _ => ParPlan { pools: vec![4], reps: 1, perturb: false },
    }
 }
